@@ -1149,7 +1149,11 @@ class GenericPlainRegistry(Generic[QuantityT, UnitT], metaclass=RegistryMeta):
                             self._suffixes[suffix],
                         )
                 else:
-                    for real_name in self._units_casei.get(name.lower(), ()):
+                    real_names = self._units_casei.get(name.lower(), ())
+                    if name in real_names:
+                        # a spelling defined with exactly this case denotes that unit
+                        real_names = (name,)
+                    for real_name in sorted(real_names):
                         yield (
                             self._prefixes[prefix].name,
                             self._units[real_name].name,
